@@ -44,6 +44,9 @@ type Obligation struct {
 	FailRes   *Result  `json:"-"`
 	Pos       string   `json:"pos,omitempty"`
 	Attempts  []string `json:"attempts,omitempty"`
+	// NewInput: a replayed failing input that lies outside the recorded finding for this obligation
+	NewInput    string `json:"-"`
+	NewInputLog string `json:"-"`
 }
 
 type Finding struct {
@@ -51,6 +54,7 @@ type Finding struct {
 	Property   string
 	Obligation string
 	Input      string
+	Match      string // regexp ('.' for blanks): every failing input the replay harness reports must match it
 	Text       string
 	Raw        string
 }
@@ -92,6 +96,8 @@ func loadFindings(path string) ([]Finding, error) {
 				f.Obligation = w[11:]
 			case strings.HasPrefix(w, "input="):
 				f.Input = w[6:]
+			case strings.HasPrefix(w, "match="):
+				f.Match = w[6:]
 			}
 		}
 		out = append(out, f)
